@@ -3128,7 +3128,8 @@ class Gaussian(Preparation, Decomposition):
             # covariance matrix consists of x/p quadrature squeezed state
             for n, expr in enumerate(D[: self.ns]):
                 if np.abs(expr - 1) >= _decomposition_tol:
-                    r = np.abs(np.log(expr) / 2)
+                    # the x variance is exp(-2r): r is negative if x is anti-squeezed
+                    r = -np.log(expr) / 2
                     cmds.append(Command(Squeezed(r, 0), reg[n]))
                 else:
                     cmds.append(Command(Vac, reg[n]))
